@@ -11,7 +11,7 @@ CHOICES = {
     'ids': ('name', 'numbered'),          # feature ids equal to names / f1, f2, ...
     'table_order': ('preorder', 'reversed', 'sorted'),
     'children_order': ('as-is', 'reversed'),
-    'nary': (2, 3, 4),
+    'nary': (2, 3, 4, 7),
     'note': ('', 'a note'),
     'key_order': (0, 1),                  # order of the top-level keys and of the keys of an entry
     'indent': (None, 2),
